@@ -334,13 +334,14 @@ func (g *Gen) sharedStateFacts() string {
 // goroutineFacts: one record per `go` statement of the module's non-test code. For each: where it is,
 // what it starts, the headers of the enclosing loops (outermost first), and the WaitGroup discipline
 // around it, read off the syntax:
-//   addBefore   – the statement just before the `go` in the same block is `<wg>.Add(1)`
-//   waitAfter   – the statement just after the innermost enclosing loop is `<wg>.Wait()`
-//   wgFresh     – `var <wg> sync.WaitGroup` is declared in the same block as that loop and its Wait
-//   doneLast    – the started function (a closure bound in the same function) ends with `<wg>.Done()` as
-//                 its last top-level statement, or begins with `defer <wg>.Done()`
-//   noEarlyExit – that closure contains no `return`, `goto` or `panic(` before the Done
-//   goCount     – number of `go` statements in the enclosing function
+//
+//	addBefore   – the statement just before the `go` in the same block is `<wg>.Add(1)`
+//	waitAfter   – the statement just after the innermost enclosing loop is `<wg>.Wait()`
+//	wgFresh     – `var <wg> sync.WaitGroup` is declared in the same block as that loop and its Wait
+//	doneLast    – the started function (a closure bound in the same function) ends with `<wg>.Done()` as
+//	              its last top-level statement, or begins with `defer <wg>.Done()`
+//	noEarlyExit – that closure contains no `return`, `goto` or `panic(` before the Done
+//	goCount     – number of `go` statements in the enclosing function
 func (g *Gen) goroutineFacts() string {
 	var recs []string
 	for _, k := range sortedKeys(g.pkgs) {
